@@ -15,8 +15,8 @@ from core import hexf, unhex
 
 META = dict(
     level="exploration",
-    technique="exhaustive enumeration of scaled families (base point x tan beta x 256 sign patterns x k = 1..128), metamorphic scaling oracle on every doubling step",
-    text="8 base points (benchmark points of the repository, rescaled where needed so that the lightest SUSY mass is >= 300 GeV, three independent generations, non-zero trilinears) x tan(beta) x all 256 sign patterns of (mu,M1,M2,M3,At,Ab,Atau,Amu); all dimensionful SUSY inputs and Q scaled by k = 1,2,...,128. On every step k -> 2k (k <= 64): |a1L(2k)/a1L(k) - 1/4| <= 50 (MZ/(k M_min))^2 with and without resummation; k^2 a2L(k) affine in log k (second difference over two doublings <= 50 (MZ/(k M_min))^2 sum|components|) and a2L(2k)/a2L(k) in [0.2,0.35] whenever |a2L| >= 0.5 sum|components| at both ends; the log-free 2L component (fermion/sfermion approximation) obeys the 1L bound, the photonic and chargino 2L(a) components the [0.2,0.35] window; |tan_beta_cor(2k) - tan_beta_cor(k)| <= 50 (MZ/(k M_min))^2; the 2L uncertainty is >= 2.3e-10 at every k, k^2 (unc - 2.3e-10) never exceeds 3x its running maximum and (unc - 2.3e-10) at k=128 is <= 2e-3 of its value at k=1. Families on which any member throws or whose lightest SUSY mass is < 300 GeV are counted and skipped.",
+    technique="exhaustive enumeration of scaled families (base point x tan beta x 256 sign patterns x k = 1..128) built three ways (fresh object, re-used evaluated object, copy of evaluated object), metamorphic scaling oracle on every doubling step plus fresh-vs-re-used agreement",
+    text="8 base points (benchmark points of the repository, rescaled where needed so that the lightest SUSY mass is >= 300 GeV, three independent generations, non-zero trilinears) x tan(beta) x all 256 sign patterns of (mu,M1,M2,M3,At,Ab,Atau,Amu); all dimensionful SUSY inputs and Q scaled by k = 1,2,...,128. On every step k -> 2k (k <= 64): |a1L(2k)/a1L(k) - 1/4| <= 50 (MZ/(k M_min))^2 with and without resummation; k^2 a2L(k) affine in log k (second difference over two doublings <= 50 (MZ/(k M_min))^2 sum|components|) and a2L(2k)/a2L(k) in [0.2,0.35] whenever |a2L| >= 0.5 sum|components| at both ends; the log-free 2L component (fermion/sfermion approximation) obeys the 1L bound, the photonic and chargino 2L(a) components the [0.2,0.35] window; |tan_beta_cor(2k) - tan_beta_cor(k)| <= 50 (MZ/(k M_min))^2; the 2L uncertainty is >= 2.3e-10 at every k, k^2 (unc - 2.3e-10) never exceeds 3x its running maximum and (unc - 2.3e-10) at k=128 is <= 2e-3 of its value at k=1. Families on which any member throws or whose lightest SUSY mass is < 300 GeV are counted and skipped. Every family is produced three times: with a freshly built model per member, by moving the already evaluated k=1 object through all k (setters + calculate_masses()), and by moving a copy of the evaluated k=1 object to each k; the inequalities are required on all three, and every quantity (all a_mu functions and helpers, DR-bar masses, Yukawas) of the re-used models must agree with the fresh model of the same parameters to relative 1e-9, with identical exception behaviour.",
     note="trusted: dimensional analysis of the MSSM contributions (the oracle is the scaling relation, no reference numbers). The design's 'uncertainty shrinks by >= 2.5 per doubling / non-increasing' is not implied by the statement and false on the unchanged tree (the 2L(a) sfermion term is (A + B log k)/k^2 and changes sign); it is replaced by the envelope stated in `text`.",
     design_ref="3/C07")
 
@@ -117,14 +117,39 @@ def check_family(lay, v):
     return fails, st, mmin
 
 
+# get_physical() entries that calculate_masses() fills only while they are still zero (copy_susy_masses_to_pole):
+# on a re-used object they keep the values of the first evaluation *by construction of the library* and are
+# therefore not part of the fresh-vs-re-used agreement (reported in the evidence as stale_pole_entries)
+STALE_POLE = ["pole_MChi", "pole_MCha", "pole_MSm", "pole_MSvmL", "pole_MStau", "pole_MSb", "pole_MSt"]
+STALE = set(STALE_POLE) | {"nr." + n for n in STALE_POLE}
+VARIANTS = (("chain", "reused-chain"), ("copy", "reused-copy"))
+
+
+def _status(r):
+    return ("OK",) if r[0] == "OK" else (r[0], r[1].replace("base:", ""), r[2])
+
+
 def _worker(job):
     base, k0, tb = job
     lay = mssmrun.layout("plain")["O"]
+    nk = len(KS)
     pts = [mssmrun.os_point(base, tb, p, k=k0 * k) for p in PATTERNS for k in KS]
     res = mssmrun.run_os(pts, "plain")
-    out = dict(fails=[], stats={}, checked=[], skipped_throw=0, skipped_partial=0, skipped_light=0, reasons={}, mmin=[])
+    # second way of producing every family member: the evaluated k = 1 object moved through k = 1,2,..,128
+    # one after the other ("chain") and a copy of the evaluated k = 1 object moved to each k ("copy")
+    fams = mssmrun.run_osf([(pts[ip * nk], pts[ip * nk:(ip + 1) * nk]) for ip in range(len(PATTERNS))], 3, "plain")
+    out = dict(fails=[], stats={}, checked=[], skipped_throw=0, skipped_partial=0, skipped_light=0, reasons={}, mmin=[],
+               reused_checked=0, reused_worst={}, stale=0, reused_bitwise=0, reused_numbers=0)
+    FA, FB, FWHO = [], [], []
     for ip, p in enumerate(PATTERNS):
-        rs = res[ip * len(KS):(ip + 1) * len(KS)]
+        rs = res[ip * nk:(ip + 1) * nk]
+        # the re-used objects must succeed / throw exactly where the fresh ones do (a failing base point makes
+        # the whole re-used family unavailable)
+        if rs[0][0] == "OK":
+            for var, tag in VARIANTS:
+                for k, f, r in zip(KS, rs, fams[ip][var]):
+                    if _status(f)[:2] != _status(r)[:2]:
+                        out["fails"].append((p, tag + ":status", "at %g k0 the freshly built model gives %r, the re-used one %r" % (k, _status(f), _status(r))))
         bad = [r for r in rs if r[0] != "OK"]
         if bad:
             if len(bad) == len(rs):
@@ -153,6 +178,39 @@ def _worker(job):
                 continue
             seen.add(chk)
             out["fails"].append((p, chk, what))
+        # (a) the same inequalities on the re-used families, (b) agreement with the fresh members
+        for var, tag in VARIANTS:
+            rr = fams[ip][var]
+            if any(r[0] != "OK" for r in rr):
+                continue                  # already reported as status mismatch
+            w = [r[1] for r in rr]
+            rf, _, _ = check_family(lay, w)
+            seen = set()
+            for chk, what in rf:
+                if chk in seen:
+                    continue
+                seen.add(chk)
+                out["fails"].append((p, tag + ":" + chk, what + "  {family produced by re-using the evaluated k0 model: %s}" % var))
+            out["reused_checked"] += 1
+            for k, a, b in zip(KS, v, w):
+                FA.append(a); FB.append(b); FWHO.append((p, tag, k))
+    if FA:
+        A, B = np.stack(FA), np.stack(FB)
+        bads, worst = mssmrun.compare_block(lay, A, B, skip=STALE)
+        out["reused_worst"] = worst
+        cols = [i for n, (off, ln) in lay.items() if n not in STALE and n not in mssmrun.SKIP and n != "__n__" for i in range(off, off + ln)]
+        out["reused_numbers"] = A.shape[0] * len(cols)
+        out["reused_bitwise"] = int((A[:, cols] == B[:, cols]).sum())
+        sc = [i for n in STALE_POLE for i in range(lay[n][0], lay[n][0] + lay[n][1])]
+        out["stale"] = int((A[:, sc] != B[:, sc]).any(axis=1).sum())
+        for (p, tag, k), bad in zip(FWHO, bads):
+            seen = set()
+            for n, j, x, y, rel in bad:
+                if n in seen:
+                    continue
+                seen.add(n)
+                out["fails"].append((p, "%s:differs:%s" % (tag, n),
+                                     "%s[%d] = %r on the freshly built model at %g k0 but %r on the re-used model moved to the same parameters (rel. diff %.3e)" % (n, j, x, k, y, rel)))
     return base, k0, tb, out
 
 
@@ -162,9 +220,14 @@ def run(ctx):
     tbs = [1.5, 10.0, 80.0] if ctx.quick else [1.5, 3.0, 10.0, 30.0, 50.0, 80.0]
     jobs = [(b, k0, tb) for b, k0 in BASES for tb in tbs]
     stats, cnt, reasons, mm = {}, dict(checked=0, skipped_throw=0, skipped_partial=0, skipped_light=0), {}, []
+    reused, rworst = {}, {}
     with mp.Pool(min(16, os.cpu_count() or 4)) as pool:
         for base, k0, tb, out in pool.imap(_worker, jobs):
-            ctx.evals(len(PATTERNS) * len(KS))
+            ctx.evals(len(PATTERNS) * len(KS) * 3)
+            for k_ in ("reused_checked", "stale", "reused_bitwise", "reused_numbers"):
+                reused[k_] = reused.get(k_, 0) + out[k_]
+            for k_, v in out["reused_worst"].items():
+                rworst[k_] = max(rworst.get(k_, 0.0), v)
             for k_ in ("skipped_throw", "skipped_partial", "skipped_light"):
                 cnt[k_] += out[k_]
             cnt["checked"] += len(out["checked"])
@@ -191,6 +254,12 @@ def run(ctx):
     ctx.note("families_skipped_some_members_throw", cnt["skipped_partial"])
     ctx.note("families_skipped_lightest_mass_below_300", cnt["skipped_light"])
     ctx.note("skip_reasons", reasons)
+    ctx.note("reused_families_checked(chain+copy)", reused.get("reused_checked", 0))
+    ctx.note("reused_vs_fresh_numbers_compared", reused.get("reused_numbers", 0))
+    ctx.note("reused_vs_fresh_numbers_bitwise_equal", reused.get("reused_bitwise", 0))
+    ctx.note("reused_vs_fresh_largest_relative_differences",
+             {k_: float("%.3g" % v) for k_, v in sorted(rworst.items(), key=lambda kv: -kv[1])[:6]})
+    ctx.note("reused_members_with_stale_pole_entries(by design, not compared)", reused.get("stale", 0))
     ctx.note("lightest_susy_mass_range", [float("%.4g" % min(mm)), float("%.4g" % max(mm))] if mm else [])
     ctx.note("observed_ranges", {k_: ([float("%.4g" % v[0]), float("%.4g" % v[1])] if isinstance(v, tuple) else v)
                                  for k_, v in sorted(stats.items())})
@@ -212,11 +281,27 @@ def replay(ctx, path):
     lay = mssmrun.layout("plain")["O"]
     p = tuple(float(x) for x in dd["signs"])
     k0, tb = unhex(dd["k0"]), unhex(dd["tb"])
-    rs = mssmrun.run_os([mssmrun.os_point(dd["base"], tb, p, k=k0 * k) for k in KS], "plain")
+    pts = [mssmrun.os_point(dd["base"], tb, p, k=k0 * k) for k in KS]
+    rs = mssmrun.run_os(pts, "plain")
     if any(r[0] != "OK" for r in rs):
         print("replay: family skipped now (%r)" % ([r[1:3] for r in rs if r[0] != "OK"][:1],))
         return 0
-    fails, _, mmin = check_family(lay, [r[1] for r in rs])
+    v = [r[1] for r in rs]
+    fails, _, mmin = check_family(lay, v)
+    fam = mssmrun.run_osf([(pts[0], pts)], 3, "plain")[0]
+    for var, tag in VARIANTS:
+        rr = fam[var]
+        for k, f, r in zip(KS, rs, rr):
+            if _status(f)[:2] != _status(r)[:2]:
+                fails.append((tag + ":status", "at %g k0 fresh %r, re-used %r" % (k, _status(f), _status(r))))
+        if any(r[0] != "OK" for r in rr):
+            continue
+        w = [r[1] for r in rr]
+        fails += [(tag + ":" + chk, what) for chk, what in check_family(lay, w)[0]]
+        bads, _ = mssmrun.compare_block(lay, np.stack(v), np.stack(w), skip=STALE)
+        for k, bad in zip(KS, bads):
+            for n, j, x, y, rel in bad:
+                fails.append(("%s:differs:%s" % (tag, n), "%s[%d] = %r fresh vs %r re-used at %g k0 (rel %.3e)" % (n, j, x, y, k, rel)))
     want = d["key"].rsplit(":", 1)[0]
     hit = [f for f in fails if f[0] == want] or fails
     for chk, what in hit[:8]:
@@ -224,5 +309,5 @@ def replay(ctx, path):
     if hit and mmin >= 300.0:
         print("VIOLATION property=C07 replay=%s" % path)
         return 1
-    print("replay: holds now (all C07 inequalities on the stored family)")
+    print("replay: holds now (all C07 inequalities on the stored family, fresh and re-used objects)")
     return 0
